@@ -156,6 +156,53 @@ def main(argv=None):
                 undecided.append(f"{ob.name}: undecided ({ob.meta.get('tried')})")
                 undecided_obs.append(ob)
 
+    # --- proof scaffolding vs. property clauses ----------------------------------------------------------------------------------
+    # A refuted loop-invariant clause that is not itself a property clause (no "Cnn." label) means "the inductive argument written for
+    # the pinned version does not go through for this version" - a refactoring does that without breaking the property, and every
+    # later obligation of the unit is then judged from a havoc-ed state.  In such a unit nothing is reported as a violation unless the
+    # bounded native replay of the unit exhibits a failing input on the real code; otherwise the unit is undecided.
+    def _is_scaffolding(ob):
+        if ob.kind not in ("inv-init", "inv-preserve", "variant"):
+            return False
+        m = re.search(r"#(?:init|preserve)#([^@~]*)", ob.name)
+        clause = m.group(1) if m else ""
+        return not re.match(r"(records\.)?C\d\d\.", clause)
+    by_unit = {}
+    for ob in violations:
+        by_unit.setdefault(ob.name.split("#", 1)[0], []).append(ob)
+    kept = []
+    for unit, obs in by_unit.items():
+        if not any(_is_scaffolding(ob) for ob in obs):
+            kept.extend(obs)
+            continue
+        hit = None
+        for ob in obs:
+            if ob.meta.get("prefound"):
+                hit = ob.meta["prefound"]
+                break
+            nn = norm_ob_name(ob.name)
+            for prefix, fn in prop.replayers.items():
+                if nn.startswith(prefix) or fnmatch.fnmatch(nn, prefix):
+                    try:
+                        h = fn(index, ob, seed)
+                    except Exception as e:
+                        h = {"found": False, "error": f"{type(e).__name__}: {e}"}
+                    if h and h.get("found"):
+                        hit = h
+                    break
+            if hit:
+                break
+        if hit:
+            for ob in obs:
+                ob.meta["prefound"] = hit
+            kept.extend(obs)
+        else:
+            n_obl -= sum(1 for ob in obs if getattr(next((r for r in results if r.unit == unit), None), "deductive", True))
+            undecided.append(f"{unit}: the inductive argument no longer goes through for this version of the function "
+                             f"({len(obs)} obligation(s) refuted, first: {obs[0].name.split('#', 1)[1][:90]}); the bounded native replay found no "
+                             "failing input, so this is reported as undecided, not as a violation")
+    violations = kept
+
     # an obligation the solvers could not decide is never a violation by itself; but the property's bounded native replay of that unit
     # is tried once per unit, and a failing input found on the real code IS reported (labelled bounded)
     tried_units = set()
